@@ -119,6 +119,12 @@ theorem C18_source_shape :
        "for err != nil && err != auctioneer.ErrClientShutdown", "return",
        "s.auctioneer.HandleServerShutdown( err, )"] := by decide
 
+/-- **The auth functions share no mutable state** (regenerated call-graph fact): `CommitAccount`, `AuthChallenge`,
+`AuthHash` and everything they call inside package account reference no package-level variable, so handshakes that
+hash at the same time (several clients, client and sidecar acceptor, client and auctioneer in one process) cannot
+disturb each other – each digest is the pure function of `C18_handshake_verifiable`. -/
+theorem C18_auth_stateless : Pool.Gen.C18.authPkgVarRefs = [] := by decide
+
 /-- the source contains the four repairs: the driver's model variant (read from the regenerated shapes) is the one
 the theorems below are about -/
 theorem C18_source_is_repaired : variantOfSource = Variant.fixed := by decide
